@@ -544,14 +544,29 @@ class World:
         exc = None
         if self.depth > 0:
             self.probe("nested_disable_block")
+        def inside():
+            self.depth += 1
+            self.murky = False  # entering sets the switch off: defined again
+            try:
+                self.exec_ops(op.get("body", []), p)
+            finally:
+                self.depth -= 1
+
         try:
-            with disable_extensions():
-                self.depth += 1
-                self.murky = False  # entering sets the switch off: defined again
-                try:
-                    self.exec_ops(op.get("body", []), p)
-                finally:
-                    self.depth -= 1
+            if op.get("deco"):
+                # the decorator form, on a function that calls itself: one decorated function, entered again while
+                # it is still active
+                @disable_extensions()
+                def rec(k):
+                    if k > 0:
+                        return rec(k - 1)
+                    return inside()
+
+                self.probe("disable_extensions_as_decorator_reentered")
+                rec(int(op["deco"]))
+            else:
+                with disable_extensions():
+                    inside()
         except (InjectedFault, InjectedInterrupt) as e:
             exc = e
         how = "normal" if exc is None else "exception"
@@ -1072,6 +1087,8 @@ class Planner:
             self.new_pack(ops)
         elif k == "noext":
             blk = self.emit(ops, {"op": "noext", "body": []})
+            if r.random() < 0.25:
+                blk["deco"] = r.choice([1, 1, 2, 3])  # decorator on a recursive function instead of a with block
             n = min(self.left(), r.randint(0, 5))
             at = r.randrange(n + 1) if r.random() < sw["p_raise"] else -1
             for i in range(n + 1):
